@@ -186,6 +186,8 @@ func applyAddrFilter(addrs []types.Multiaddr, filterAddrsQuery []string) []types
 
 	// Separate positive and negative filters
 	for _, filter := range filterAddrsQuery {
+		// protocol names are lower case; filtering is case-insensitive
+		filter = strings.ToLower(filter)
 		if strings.HasPrefix(filter, "!") {
 			negativeFilters = append(negativeFilters, multiaddr.ProtocolWithName(filter[1:]))
 		} else {
